@@ -1,0 +1,162 @@
+//go:build verif
+
+package chunkinfo
+
+import (
+	"sort"
+	"strings"
+	"time"
+
+	"github.com/gauss-project/aurorafs/pkg/boson"
+)
+
+// Hooks for the model-based verification harness (/verif). Add-only; compiled
+// only with the build tag "verif". Read-only dumps of the discovery state of one
+// root, and ageing of one timeout-trigger entry (so that the package's own 5 s
+// ticker handles it without a 30 s wait).
+
+// VerifBits is a bit vector of a dump.
+type VerifBits struct {
+	Nil bool // the record exists but holds no vector
+	Len int
+	B   []byte
+}
+
+// VerifQueue is the pull queue of a root (overlay addresses in hex, queue order).
+type VerifQueue struct {
+	UnPull  []string
+	Pulling []string
+	Pulled  []string
+}
+
+// VerifState is everything the package keeps in memory about one root.
+type VerifState struct {
+	Queue    *VerifQueue // nil: no queue
+	Pending  bool        // pending-finder entry
+	Sync     bool        // a FindChunkInfo call waits for a result (syncMsg entry)
+	Triggers []string    // overlays with an armed timeout trigger
+
+	Pyramid  bool // cp.hashData entry
+	ChunkMax int
+	HashMax  int
+
+	ServerKey   bool                 // ct.presence entry
+	Server      map[string]VerifBits // overlay -> bits
+	ServerOrder []string             // ct.overlays
+
+	DiscoverKey  bool // cd.presence entry
+	DiscoverBusy bool // the table's lock was held throughout the dump (a worker is parked)
+	Discover     map[string]VerifBits
+
+	SourceKey     bool // cs.presence entry
+	PyramidSource string
+	Source        map[string]VerifBits
+}
+
+func verifCopy(p []*[]byte) []string {
+	out := make([]string, 0, len(p))
+	for _, x := range p {
+		out = append(out, boson.NewAddress(*x).String())
+	}
+	return out
+}
+
+// VerifDump returns the in-memory records of rootCid.
+func (ci *ChunkInfo) VerifDump(rootCid boson.Address) VerifState {
+	rc := rootCid.String()
+	var st VerifState
+
+	if q := ci.getQueue(rc); q != nil {
+		q.RLock()
+		st.Queue = &VerifQueue{UnPull: verifCopy(q.UnPull), Pulling: verifCopy(q.Pulling), Pulled: verifCopy(q.Pulled)}
+		q.RUnlock()
+	}
+	st.Pending = ci.cpd.getPendingFinder(rootCid)
+	_, st.Sync = ci.syncMsg.Load(rc)
+
+	ci.tt.RLock()
+	for k := range ci.tt.trigger {
+		if strings.HasPrefix(k, rc+"_") {
+			st.Triggers = append(st.Triggers, strings.TrimPrefix(k, rc+"_"))
+		}
+	}
+	ci.tt.RUnlock()
+	sort.Strings(st.Triggers)
+
+	ci.cp.RLock()
+	if info, ok := ci.cp.hashData[rc]; ok {
+		st.Pyramid, st.ChunkMax, st.HashMax = true, int(info.chunkMax), int(info.hashMax)
+	}
+	ci.cp.RUnlock()
+
+	ci.ct.RLock()
+	if m, ok := ci.ct.presence[rc]; ok {
+		st.ServerKey = true
+		st.Server = make(map[string]VerifBits, len(m))
+		for o, bv := range m {
+			if bv == nil {
+				st.Server[o] = VerifBits{Nil: true}
+			} else {
+				st.Server[o] = VerifBits{Len: bv.Len(), B: append([]byte(nil), bv.Bytes()...)}
+			}
+		}
+	}
+	for _, o := range ci.ct.overlays[rc] {
+		st.ServerOrder = append(st.ServerOrder, o.String())
+	}
+	ci.ct.RUnlock()
+
+	// the discovery table's worker may be parked by the harness inside a state-store call while it holds the
+	// table's lock (forced schedule): do not wait for it, read the table as it stands and say so
+	cdLocked := false
+	for i := 0; i < 200 && !cdLocked; i++ {
+		if cdLocked = ci.cd.TryRLock(); !cdLocked {
+			time.Sleep(250 * time.Microsecond)
+		}
+	}
+	st.DiscoverBusy = !cdLocked
+	if m, ok := ci.cd.presence[rc]; ok {
+		st.DiscoverKey = true
+		st.Discover = make(map[string]VerifBits, len(m))
+		for o, d := range m {
+			if d == nil || d.bit == nil {
+				st.Discover[o] = VerifBits{Nil: true}
+			} else {
+				st.Discover[o] = VerifBits{Len: d.bit.Len(), B: append([]byte(nil), d.bit.Bytes()...)}
+			}
+		}
+	}
+	if cdLocked {
+		ci.cd.RUnlock()
+	}
+
+	ci.cs.RLock()
+	if s, ok := ci.cs.presence[rc]; ok && s != nil {
+		st.SourceKey = true
+		st.PyramidSource = s.PyramidSource
+		st.Source = make(map[string]VerifBits, len(s.ChunkSource))
+		for o, bv := range s.ChunkSource {
+			if bv == nil {
+				st.Source[o] = VerifBits{Nil: true}
+			} else {
+				st.Source[o] = VerifBits{Len: bv.Len(), B: append([]byte(nil), bv.Bytes()...)}
+			}
+		}
+	}
+	ci.cs.RUnlock()
+	return st
+}
+
+// VerifAgeTrigger moves the timestamp of the timeout trigger of (rootCid, overlay)
+// into the past by the given number of seconds; false if no such trigger is armed.
+func (ci *ChunkInfo) VerifAgeTrigger(rootCid, overlay boson.Address, seconds int64) bool {
+	ci.tt.Lock()
+	defer ci.tt.Unlock()
+	key := rootCid.String() + "_" + overlay.String()
+	t, ok := ci.tt.trigger[key]
+	if !ok {
+		return false
+	}
+	ci.tt.trigger[key] = t - seconds
+	return true
+}
